@@ -242,8 +242,12 @@ Section Displaced.
     end.
 End Displaced.
 
+(* fuel: every traversal is bounded by the depth of the tree it walks.  Resolution never adds an element
+   except one placeholder p per reference, so the depth stays below  #elements + #references + 2 <= 2 * size + 2 *)
+Definition displaced_fuel (x : xml) : nat := S (S (xsize x + xsize x)).
+
 Definition resolve_displaced_content (x : xml) : R xml :=
-  let fuel := S (xsize x) in
+  let fuel := displaced_fuel x in
   let '(ix, next) := number fuel x 0 in
   do '(ix1, _) <-
     fold_left (fun acc rid => do '(t, n) <- acc; resolve_ref fuel t n rid) (refs_of fuel ix) (OkR (ix, next));
